@@ -404,6 +404,12 @@ class QasmProcessor:
                     gate_added = self.qasm_gates[name]
                     curr_gate.gates_inside.append([name, gate_args, gate_regs])
                 elif command[0] == "barrier":
+                    for reg in command[1:]:
+                        if reg not in curr_gate.gate_regs:
+                            raise ValueError(
+                                "QASM: {} is not a qubit argument of "
+                                "gate {}".format(reg, curr_gate.name)
+                            )
                     continue
                 elif command[0] == "gate":
                     raise SyntaxError("QASM: incorrect bracket formatting")
@@ -445,7 +451,7 @@ class QasmProcessor:
                 raise NotImplementedError(
                     ("QASM: reset functionality " "is not supported.")
                 )
-            elif command[0] in ["barrier", "include"]:
+            elif command[0] == "include":
                 continue
             else:
                 unprocessed.append(num)
@@ -519,8 +525,9 @@ class QasmProcessor:
         regs : list of str
             Token list corresponding to qubit/cbit register invocations.
         reg_type : str
-            reg_type can be "measure" or "gate" to specify type of required
-            processing.
+            reg_type can be "measure", "gate" or "barrier" to specify type of
+            required processing ("barrier": as "gate", but whole registers
+            of different sizes may be mixed).
 
         Returns
         -------
@@ -606,7 +613,11 @@ class QasmProcessor:
                 else:
                     qubit_name = reg
                     qubit = self.qubit_regs[qubit_name]
-                    if expand and expand != len(qubit):
+                    if (
+                        reg_type != "barrier"
+                        and expand
+                        and expand != len(qubit)
+                    ):
                         raise ValueError(
                             "QASM: registers of different sizes "
                             "in one statement"
@@ -954,6 +965,10 @@ class QasmProcessor:
                     qc.add_measurement(
                         "M", targets=[regs[0]], classical_store=regs[1]
                     )
+            elif command[0] == "barrier":
+                # nothing is added to the circuit, but the arguments
+                # must be declared qubits
+                self._regs_processor(command[1:], "barrier")
             elif command[0] == "if":
                 warnings.warn(
                     (
